@@ -65,17 +65,28 @@ pub fn gen_reqs(r: &mut Rng) -> (Reqs, bool) {
         }
         v
     };
-    let always = pick_names(r, &EXTRA_HEADER_NAMES, 2);
     let mut cond_pool: Vec<&str> = EXTRA_HEADER_NAMES.to_vec();
     cond_pool.extend_from_slice(&["content-type", "x-amz-date", "x-amz-security-token", "date"]);
-    let if_req = pick_names(r, &cond_pool, 3);
+    // (now and then an always-required name is one of the headers the verifier itself consults)
+    let always = if r.chance(1, 8) {
+        pick_names(r, &cond_pool, 2)
+    } else {
+        pick_names(r, &EXTRA_HEADER_NAMES, 2)
+    };
+    let mut if_req = pick_names(r, &cond_pool, 3);
     let prefixes = pick_names(r, &PREFIXES, 2);
+    if !always.is_empty() && r.chance(1, 5) {
+        // the same name declared both ways
+        let (s, m) = recase(r, &always[0].to_ascii_lowercase());
+        mixed |= m;
+        if_req.push(s);
+    }
     (
         Reqs {
             always,
             if_req,
             prefixes,
-            build: r.below(3) as u8,
+            build: *r.pick(&[0u8, 1, 2, 4]),
         },
         mixed,
     )
@@ -102,9 +113,32 @@ fn shard(seed: u64, shard: u64, n: u64) -> Tally {
             allow_form: false,
             ..Default::default()
         };
+        let mut cfg = cfg;
+        let long_lists = r.chance(1, 20);
+        if long_lists {
+            // long lists: 8–16 names per requirement list, 15–30 request headers under one prefix
+            for k in 0..8 + r.usize_below(9) {
+                cfg.reqs.always.push(format!("X-Req-Always-{:02}", k));
+                cfg.reqs.if_req.push(format!("x-req-cond-{:02}", k));
+            }
+            for k in 0..6 + r.usize_below(6) {
+                cfg.reqs.prefixes.push(format!("x-unused-prefix-{}-", k));
+            }
+            cfg.reqs.prefixes.push("X-Amz-Meta-".to_string());
+            t.count("long_requirement_lists");
+        }
         let mut l = gen_logical(&mut r, &cfg, &o);
+        if long_lists {
+            for k in 0..15 + r.usize_below(16) {
+                l.extra.push((format!("x-amz-meta-{:02}", k), vec![crate::gen::gen_header_value(&mut r)]));
+                if k % 3 == 0 {
+                    l.extra.push((format!("x-req-cond-{:02}", k % 8), vec![b"v".to_vec()]));
+                }
+            }
+            l.extra.sort_by(|a, b| a.0.cmp(&b.0));
+            l.extra.dedup_by(|a, b| a.0 == b.0);
+        }
         let required = required_signed(&l, &cfg);
-        let present = present_header_names(&l);
         let build = cfg.reqs.build;
         // classify each required name by the rule that demands it
         let lower = |v: &Vec<String>| v.iter().map(|s| s.to_ascii_lowercase()).collect::<Vec<_>>();
@@ -126,15 +160,26 @@ fn shard(seed: u64, shard: u64, n: u64) -> Tally {
         let mut dropped: Vec<&'static str> = Vec::new();
         if violate {
             let k = 1 + r.usize_below(2.min(signed.len()));
-            for _ in 0..k {
+            for n in 0..k {
                 if signed.is_empty() {
                     break;
                 }
-                let p = r.usize_below(signed.len());
+                // (with long lists: the name that sorts last — a bounded scan would not reach it)
+                let p = if long_lists && n == 0 {
+                    signed.len() - 1
+                } else {
+                    r.usize_below(signed.len())
+                };
                 let name = signed.remove(p);
                 dropped.push(why(&name));
+                // an always-required header may be missing from the request altogether, not only from the list
+                if why(&name) == "always" && !crate::gen::is_managed(&name) && r.chance(1, 3) {
+                    l.extra.retain(|(n, _)| *n != name);
+                    t.count("always_required_header_absent_from_the_request");
+                }
             }
         }
+        let present = present_header_names(&l);
         // extras: other present headers may be signed too (never re-adding a dropped required one)
         for n in &present {
             if !required.contains(n) && r.chance(1, 3) {
@@ -143,8 +188,12 @@ fn shard(seed: u64, shard: u64, n: u64) -> Tally {
         }
         if dropped.contains(&"host") && r.chance(1, 2) {
             // near misses of the mandatory names do not satisfy the rule
-            signed.push(r.pick(&["hostx", "host2", "xhost", ":authorityx", "hos", "authority"]).to_string());
-            signed.retain(|s| present.contains(s) || s.starts_with("host") || s.contains("authorit") || s == "hos" || s == "xhost");
+            signed.push(r.pick(&["hostx", "host2", "xhost", ":authorityx", "hos", "authority", ":path", ":method", ":scheme", ":", ":host"]).to_string());
+            signed.retain(|s| present.contains(s) || s.starts_with("host") || s.contains("authorit") || s == "hos" || s == "xhost" || s.starts_with(':'));
+        } else if dropped.contains(&"host") && dropped.len() >= 2 && r.coin() {
+            // the HTTP/2 spelling satisfies the host rule — and nothing else: the other dropped name is still missing
+            signed.push(":authority".to_string());
+            t.count("authority_listed_with_another_required_name_missing");
         }
         signed.sort();
         signed.dedup();
@@ -255,6 +304,15 @@ fn containers(seed: u64, shard: u64, n: u64) -> Tally {
             } else {
                 model[which].remove(&name.to_ascii_lowercase());
             }
+            // the accessors are read after every step (a cached view must follow every later change)
+            let now: [BTreeSet<String>; 3] = [
+                v.always_present().iter().map(|s| s.to_ascii_lowercase()).collect(),
+                v.if_in_request().iter().map(|s| s.to_ascii_lowercase()).collect(),
+                v.prefixes().iter().map(|s| s.to_ascii_lowercase()).collect(),
+            ];
+            if now != model {
+                break;
+            }
         }
         t.eval();
         let got: [BTreeSet<String>; 3] = [
@@ -278,6 +336,101 @@ fn containers(seed: u64, shard: u64, n: u64) -> Tally {
     t
 }
 
+/// A mandatory name written in another letter case inside SignedHeaders (`HOST;x-amz-date`). Declared names match
+/// case-insensitively; whether a *listed* name does is not spelled out, so refusal is fine — but if such a request is accepted,
+/// the header that satisfied the rule must really be covered by the signature: changing its value must break acceptance.
+fn recased_in_list(seed: u64, shard: u64, n: u64) -> Tally {
+    let mut t = Tally::new();
+    for i in 0..n {
+        let mut r = Rng::keyed(seed, "C05", "recased-list", shard, i);
+        let (reqs, _) = gen_reqs(&mut r);
+        let cfg = Cfg {
+            region: "us-east-1".into(),
+            service: "service".into(),
+            s3: false,
+            fold: false,
+            reqs,
+            now: Inst {
+                s: 0,
+                ns: 0,
+            },
+        };
+        let o = GenOpts {
+            max_extra_headers: 4,
+            allow_form: false,
+            other_carrier_decoys: false,
+            ..Default::default()
+        };
+        let l = gen_logical(&mut r, &cfg, &o);
+        let required = required_signed(&l, &cfg);
+        let present = present_header_names(&l);
+        let candidates: Vec<&String> = required.iter().filter(|n| present.contains(n) && n.bytes().any(|c| c.is_ascii_lowercase())).collect();
+        if candidates.is_empty() {
+            continue;
+        }
+        let target = (*r.pick(&candidates)).clone();
+        let mut list = l.signed.clone();
+        for n in list.iter_mut() {
+            if *n == target {
+                *n = if r.coin() {
+                    n.to_ascii_uppercase()
+                } else {
+                    let mut b = n.clone().into_bytes();
+                    b[0] = b[0].to_ascii_uppercase();
+                    String::from_utf8(b).unwrap()
+                };
+            }
+        }
+        let ov = Overrides {
+            signed: Some(list.clone()),
+            ..Default::default()
+        };
+        let mut sr = Rng::keyed(seed, "C05", "recased-spell", shard, i);
+        let mut sp = Speller {
+            r: &mut sr,
+            level: 0,
+        };
+        let (case, _) = make_case(&l, &cfg, &mut sp, &ov, 0);
+        let rec = execute(&case);
+        t.eval();
+        if matches!(rec.outcome, Outcome::NotBuilt(_)) {
+            continue;
+        }
+        if !rec.outcome.is_ok() {
+            t.count("recased_listed_name_refused");
+            t.nontrivial(case.hash());
+            continue;
+        }
+        // accepted: the header must be bound — change its value and the request must no longer verify
+        let mut c2 = case.clone();
+        let mut changed = false;
+        for h in c2.wire.headers.iter_mut() {
+            if h.0.eq_ignore_ascii_case(target.as_bytes()) {
+                h.1.extend_from_slice(b"-changed");
+                changed = true;
+            }
+        }
+        if !changed {
+            continue;
+        }
+        let rec2 = execute(&c2);
+        t.eval();
+        if rec2.outcome.is_ok() {
+            t.violate(violation(
+                "signed-headers",
+                "recased-listed-name-not-bound",
+                format!("SignedHeaders {:?} (required name {:?} in another letter case) was accepted, and still is after the value of that header was changed: the requirement was satisfied by a header the signature does not cover", list, target),
+                &c2,
+                None,
+            ));
+        } else {
+            t.count("recased_listed_name_accepted_and_bound");
+            t.nontrivial(case.hash());
+        }
+    }
+    t
+}
+
 pub fn run(tier: Tier) -> i32 {
     let mut ctx = Ctx::new("C05", tier);
     let pre = preflight();
@@ -286,20 +439,25 @@ pub fn run(tier: Tier) -> i32 {
     let mut tally = ctx.par(32, |s| shard(seed, s, per));
     let c = ctx.par(8, |s| containers(seed, s, tier.n(2000, 200_000)));
     tally.merge(c);
+    let u = ctx.par(8, |s| recased_in_list(seed, s, tier.n(1000, 50_000)));
+    tally.merge(u);
     if let Err(e) = &pre {
         tally.inconclusive.push(e.clone());
     }
     for k in ["host", "always", "if-present", "prefix"] {
         ctx.gate(&format!("requirement kind '{}' violated alone with an otherwise valid signature, refused", k), tally.get(&format!("violated_alone/{}", k)), tier.n(300, 1000));
     }
-    for b in 0..3 {
+    for b in [0, 1, 2, 4] {
         ctx.gate(&format!("satisfied and accepted via construction path {}", b), tally.get(&format!("satisfied_accepted/build{}", b)), tier.n(300, 1000));
     }
+    ctx.gate("always-required header missing from request and list, refused", tally.get("always_required_header_absent_from_the_request"), tier.n(300, 5000));
+    ctx.gate("cases with long requirement lists and 15–30 prefixed headers", tally.get("long_requirement_lists"), tier.n(2000, 50_000));
+    ctx.gate("mandatory name in another letter case inside SignedHeaders: refused, or accepted with the header bound", tally.get("recased_listed_name_refused") + tally.get("recased_listed_name_accepted_and_bound"), tier.n(3000, 100_000));
     ctx.gate("share of cases with mixed-case declarations (percent)", tally.get("mixed_case_declarations") * 100 / tally.evaluations.max(1), 30);
     ctx.gate("container add/remove sequences agreeing with the set model", tally.get("container_sequences_agree"), tier.n(1000, 50_000));
     let rep = Report {
         level: "exploration",
-        rule: "Requirement sets = random subsets of a header-name pool (always / if-present / prefix incl. overlapping prefixes x, x-amz, x-amz-, x-amz-meta…; each name in random letter case), built three ways (SliceSignedHeaderRequirements::new, VecSignedHeaderRequirements::new, add_*/remove_* sequences); requests carry random subsets of the pool's headers; SignedHeaders is the required list with 0–2 required names removed and random extra names added; every request is correctly signed over the list it declares, so only the requirement check can stop it. Oracle: reference set predicate over (lower-cased declarations, request header names, signed list) + error class; plus a set model of the containers. Non-trivial = satisfied-and-accepted, or violated-and-refused with the signed-header class; distinct by case hash.".into(),
+        rule: "Requirement sets = random subsets of a header-name pool (always / if-present / prefix incl. overlapping prefixes x, x-amz, x-amz-, x-amz-meta…; each name in random letter case), built four ways (SliceSignedHeaderRequirements::new, VecSignedHeaderRequirements::new, add_*/remove_* sequences, and in stages with the accessors read and a clone taken in between); now and then the same name declared always and if-present, an always-required name that the verifier itself consults, an always-required header missing from the request altogether, 8–16 names per list with 15–30 headers under one prefix (the last-sorting required name dropped), pseudo-header near misses (:path, :method, :authority with another name missing); requests carry random subsets of the pool's headers; SignedHeaders is the required list with 0–2 required names removed and random extra names added; every request is correctly signed over the list it declares, so only the requirement check can stop it. Oracle: reference set predicate over (lower-cased declarations, request header names, signed list) + error class; plus a set model of the containers, compared after every add/remove step; plus, for a mandatory name spelled in another letter case inside SignedHeaders, the model-free rule 'refused, or accepted with that header's value covered by the signature'. Non-trivial = satisfied-and-accepted, or violated-and-refused with the signed-header class; distinct by case hash.".into(),
         assumptions: vec!["ASCII declared names; always-required names are also sent as headers (a signed-but-absent header has no canonical form fixed by the properties)".into()],
         extra: J::obj().set("calibrated_vectors", J::i(pre.unwrap_or(0) as i64)),
     };
